@@ -130,6 +130,7 @@ func init() {
 			slots = append(slots, instantiate(r.V)...)
 		}
 		rc.execFamily(cmpUniverse(slots), "C01")
+		dtPairsCheck(rc, "C01")
 	}
 	checks["C05"] = func(rc *RunCtx) {
 		mixCheck(rc, small, mid, 20000, 300000, "C05")
